@@ -23,6 +23,7 @@ type specEnv struct {
 	vars map[string]sval
 	pkg  *types.Package
 	self *sval
+	gst  *State // state whose ghost variables are visible (stays at the outer state inside old()/locked())
 }
 
 func (env *specEnv) with(name string, v sval) *specEnv {
@@ -263,8 +264,12 @@ func (env *specEnv) evalIdent(e *SExpr) sval {
 		return *env.self
 	}
 	fv := env.fv
-	if g, ok := env.cur.ghost[e.Name]; ok {
-		return sval{g, nil}
+	gs := env.gst
+	if gs == nil {
+		gs = env.cur
+	}
+	if g, ok := gs.ghost[e.Name]; ok {
+		return sval{g, fv.ghostTypes[e.Name]}
 	}
 	if obj := env.pkg.Scope().Lookup(e.Name); obj != nil {
 		switch o := obj.(type) {
@@ -412,6 +417,9 @@ func (env *specEnv) evalCall(e *SExpr) sval {
 	switch name {
 	case "old":
 		n := *env
+		if n.gst == nil {
+			n.gst = env.cur
+		}
 		n.cur = env.old
 		return n.eval(args[0])
 	case "locked":
@@ -421,6 +429,9 @@ func (env *specEnv) evalCall(e *SExpr) sval {
 			env.fail(e, "locked() used but no lock with declared ownership was acquired")
 		}
 		n := *env
+		if n.gst == nil {
+			n.gst = env.cur
+		}
 		n.cur = fv.lockSnap
 		return n.eval(args[0])
 	case "len", "cap":
@@ -479,6 +490,9 @@ func (env *specEnv) evalCall(e *SExpr) sval {
 		return mathVal(slOff(env.eval(args[0]).t))
 	case "arr":
 		return mathVal(slArr(env.eval(args[0]).t))
+	case "sameBytes":
+		a, b := env.eval(args[0]), env.eval(args[1])
+		return boolVal(fv.sameBytes(env.cur, a.t, b.t))
 	case "ite":
 		c, a, b := env.evalBool(args[0]), env.eval(args[1]), env.eval(args[2])
 		return sval{smt.Ite(c, a.t, b.t), a.typ}
@@ -703,6 +717,18 @@ func (fv *funcVerifier) assumeRequires(st *State) {
 		return
 	}
 	env := fv.ownEnv(st)
+	for _, g := range fv.spec.Ghosts {
+		v := env.eval(g.E)
+		if g.Type != "" {
+			so, ty := env.sortOfName(g.Type)
+			v.typ = ty
+			if v.t.Sort != so {
+				env.fail(g.E, "ghost %s: initial value has sort %s, declared %s", g.Name, v.t.Sort, so)
+			}
+		}
+		st.ghost[g.Name] = v.t
+		fv.ghostTypes[g.Name] = v.typ
+	}
 	for _, r := range fv.spec.Requires {
 		t := env.evalBool(r)
 		fv.assume(st, t)
@@ -750,6 +776,9 @@ type modTarget struct {
 	ref   smt.Term
 	st    types.Type // struct type
 	field *structField
+	// slice contents target (modifies b where b is a slice): memKey/arr set, field nil
+	memKey string
+	arr    smt.Term
 }
 
 func (env *specEnv) modTargets(list []*SExpr) []modTarget {
@@ -757,7 +786,14 @@ func (env *specEnv) modTargets(list []*SExpr) []modTarget {
 	var out []modTarget
 	for _, e := range list {
 		if e.Op != "field" {
-			env.fail(e, "modifies target must be x.f")
+			v := env.eval(e)
+			if v.typ != nil {
+				if sl, ok := v.typ.Underlying().(*types.Slice); ok {
+					out = append(out, modTarget{memKey: fv.memKey(sl.Elem()), arr: slArr(v.t)})
+					continue
+				}
+			}
+			env.fail(e, "modifies target must be x.f or a slice (its elements)")
 		}
 		base := env.eval(e.Args[0])
 		st, isPtr := derefType(base.typ)
@@ -769,7 +805,7 @@ func (env *specEnv) modTargets(list []*SExpr) []modTarget {
 		if f == nil {
 			env.fail(e, "no field %s", e.Name)
 		}
-		out = append(out, modTarget{base.t, st, f})
+		out = append(out, modTarget{ref: base.t, st: st, field: f})
 	}
 	return out
 }
@@ -787,6 +823,11 @@ func (fv *funcVerifier) applyModifies(st *State, env *specEnv, sp *FuncSpec) {
 	tgts := env.modTargets(sp.Modifies)
 	fv.mut++
 	for _, t := range tgts {
+		if t.field == nil {
+			h := fv.heapGet(st, t.memKey)
+			fv.heapSet(st, t.memKey, smt.Store(h, t.arr, fv.c.Fresh("hv", smt.ElemSort(h.Sort))))
+			continue
+		}
 		old := fv.fieldLval(st, t.ref, t.st, t.field).load()
 		fv.havocReferent(st, old, t.field.typ)
 		nv := fv.fresh(st, "mod_"+t.field.name, t.field.typ)
@@ -830,6 +871,12 @@ func (fv *funcVerifier) havocReferent(st *State, v smt.Term, t types.Type) {
 // checkFrame asserts that nothing outside the modifies clause changed, for
 // objects that existed at entry.
 func (fv *funcVerifier) checkFrame(exit *State, env *specEnv) {
+	if fv.wildHavoc {
+		if o := fv.assert(exit, "frame", "heap-forgotten-by-uncontracted-callee-or-undeclared-lock", fv.fi.Decl.End(), smt.False); o != nil {
+			o.ForceFail = true
+		}
+		return
+	}
 	entryEnv := *env
 	entryEnv.cur = fv.entry
 	tgts := entryEnv.modTargets(fv.spec.Modifies)
@@ -848,6 +895,10 @@ func (fv *funcVerifier) checkFrame(exit *State, env *specEnv) {
 	}
 	var refs []refKey
 	for _, t := range tgts {
+		if t.field == nil {
+			refs = append(refs, refKey{t.memKey, t.arr})
+			continue
+		}
 		oldv := fv.fieldLval(fv.entry, t.ref, t.st, t.field).load()
 		switch u := t.field.typ.Underlying().(type) {
 		case *types.Map:
@@ -861,6 +912,22 @@ func (fv *funcVerifier) checkFrame(exit *State, env *specEnv) {
 			}
 		}
 	}
+	for _, lh := range fv.lockHavocs {
+		for _, v := range []smt.Term{lh.old, lh.fresh} {
+			switch u := lh.typ.Underlying().(type) {
+			case *types.Map:
+				dom, val, ln := fv.mapKeys(u)
+				refs = append(refs, refKey{dom, v}, refKey{val, v}, refKey{ln, v})
+			case *types.Slice:
+				refs = append(refs, refKey{fv.memKey(u.Elem()), slArr(v)})
+			case *types.Pointer:
+				if full, ok := opaqueNamed(u.Elem()); ok && full == "math/big.Int" {
+					refs = append(refs, refKey{fv.bigKey("val"), v}, refKey{fv.bigKey("bits"), v})
+				}
+			}
+		}
+		refs = append(refs, refKey{lh.fieldKey, lh.owner})
+	}
 	for _, k := range ks {
 		if strings.HasPrefix(k, "g:") {
 			continue
@@ -872,7 +939,7 @@ func (fv *funcVerifier) checkFrame(exit *State, env *specEnv) {
 		}
 		allowed := smt.False
 		for _, t := range tgts {
-			if fv.so.fieldKey(t.st, t.field.name) == k {
+			if t.field != nil && fv.so.fieldKey(t.st, t.field.name) == k {
 				allowed = smt.Or(allowed, smt.Eq(r, t.ref))
 			}
 		}
@@ -988,8 +1055,28 @@ func (fv *funcVerifier) callWithSpec(st *State, call *ast.CallExpr, fn *types.Fu
 		results = append(results, rv)
 		post.vars[names[i]] = sval{rv, rt}
 	}
+	for _, g := range sp.Ghosts {
+		// callee-private ghost variables mentioned in its postconditions: unknown to the caller
+		if _, seen := post.vars[g.Name]; !seen {
+			so, ty := smt.Int, types.Type(nil)
+			if g.Type != "" {
+				so, ty = env.sortOfName(g.Type)
+			} else {
+				so = env.eval(g.E).t.Sort
+			}
+			post.vars[g.Name] = sval{fv.c.Fresh("cg_"+g.Name, so), ty}
+		}
+	}
 	for _, e := range sp.Ensures {
 		fv.assume(st, post.evalBool(e))
+	}
+	for _, g := range sp.Sets {
+		v := post.eval(g.E)
+		st.ghost[g.Name] = fv.c.Let("ghost_"+g.Name, v.t)
+		if _, ok := fv.ghostTypes[g.Name]; !ok {
+			fv.ghostTypes[g.Name] = v.typ
+		}
+		fv.mut++
 	}
 	return results
 }
@@ -1046,9 +1133,11 @@ func (fv *funcVerifier) lockSpecOp(st *State, mu ast.Expr, acquire bool, call *a
 				fv.unsupported("owns: no field %s in %s", fname, n)
 			}
 			lv := fv.fieldLval(st, owner, n, f)
+			old := lv.load()
+			fv.havocReferent(st, old, f.typ)
 			nv := fv.fresh(st, "lk_"+fname, f.typ)
+			fv.lockHavocs = append(fv.lockHavocs, lockHavoc{fv.so.fieldKey(n, f.name), owner, old, nv, f.typ})
 			lv.store(nv)
-			fv.havocReferent(st, nv, f.typ)
 		}
 		env := &specEnv{fv: fv, cur: st, old: fv.entry, vars: map[string]sval{}, pkg: n.Obj().Pkg()}
 		for _, inv := range ts.Invs {
